@@ -265,6 +265,15 @@ def gen_cases(chk, fixtures):
                                       scheme=1, gi=gi))
                 cases.append(dict(fixture=f.name, kind='slices_odd_even', drop=0, strict=False, fp=True, permit=True,
                                   scheme=12, gi=gi))
+        if not big:
+            # the discarded (incomplete-volume) records first / in the middle / last, complete volumes contiguous
+            for kind in ('partial_first', 'partial_middle', 'partial_last'):
+                for drop in (0, 1, f.smax // 2 + 1, f.smax + 2):
+                    if drop and drop >= f.n - f.smax + 1:
+                        continue
+                    for strict in (True, False):
+                        cases.append(dict(fixture=f.name, kind=kind, drop=drop, strict=strict, fp=(drop % 2 == 1),
+                                          permit=True, scheme=2))
         # refusals: truncated without permit_truncated
         cases.append(dict(fixture=f.name, kind='reversed', drop=1, strict=True, fp=False, permit=False, scheme=1))
         cases.append(dict(fixture=f.name, kind='identity', drop=f.smax, strict=False, fp=False, permit=False, scheme=0))
@@ -272,7 +281,8 @@ def gen_cases(chk, fixtures):
     nrand = chk.n(500, 9000)
     for k in range(nrand):
         f = rng.choice(small if rng.random() < 0.93 else fixtures)
-        kind = rng.choice(['random', 'random', 'random_preserving', 'random_preserving', 'rotate'])
+        kind = rng.choice(['random', 'random', 'random_preserving', 'random_preserving', 'rotate', 'partial_first',
+                           'partial_middle'])
         r = rng.random()
         if r < 0.45:
             drop = 0
@@ -288,11 +298,39 @@ def gen_cases(chk, fixtures):
     return cases
 
 
+_CANON = {}
+
+
+def canonical_sorted_ids(case, f):
+    """ids kept by a strict-sorted load of the un-permuted (truncated) file, in output order (generator helper)"""
+    key = (case['fixture'], case['drop'], tuple(sorted((case.get('gi') or {}).items())))
+    if key not in _CANON:
+        ids = list(range(f.n - case['drop']))
+        text, rec = synthesise(f, ids, 0, case.get('gi'))
+        o = impl_load(text, rec, True, True, False)
+        _CANON[key] = list(o['idx']) if o['status'] == 'ok' else None
+    return _CANON[key]
+
+
 def case_order(case, f):
     import random
     ids = list(range(f.n - case['drop']))
     if 'order' in case:
         return list(case['order'])
+    if case['kind'] in ('partial_first', 'partial_middle', 'partial_last'):
+        # the records of the complete volumes in canonical (sorted) order, contiguous; the records the sort
+        # discards (incomplete volumes) at the beginning / in the middle / at the end of the file
+        canon = canonical_sorted_ids(case, f)
+        if canon is None:
+            return ids
+        kept = set(canon)
+        rest = [i for i in ids if i not in kept]
+        if case['kind'] == 'partial_first':
+            return rest + canon
+        if case['kind'] == 'partial_last':
+            return canon + rest
+        k = (len(canon) // (2 * f.smax)) * f.smax
+        return canon[:k] + rest + canon[k:]
     return permute(case['kind'], random.Random(case.get('pseed', 0)), ids, f)
 
 
@@ -345,7 +383,33 @@ def impl_load(text, rec, strict, permit, fp):
         o['affine'] = np.array(img.affine)
         o['labels'] = {k: [int(x) for x in v] for k, v in hdr.get_volume_labels().items()}
         o['hdr'] = hdr
+        o['sliced'] = sliced_reads(img.dataobj, o['arr'])
     return o
+
+
+def slicers_for(shape):
+    """a handful of proxy indexes: single volume, single slice, ranges, negative steps"""
+    ns = shape[2]
+    out = [(slice(None), slice(None), 0), (slice(None), slice(None), ns - 1), (slice(None), 1, slice(1, None)),
+           (0,), (slice(None), slice(None), slice(None, None, -1)), (slice(None), slice(None), slice(1, ns, 2))]
+    if len(shape) > 3:
+        nv = shape[3]
+        out += [(Ellipsis, 0), (Ellipsis, nv - 1), (Ellipsis, slice(1, None)), (Ellipsis, slice(None, None, -1)),
+                (slice(None), slice(None), ns // 2, slice(None)), (1, 2, slice(None), -1), (Ellipsis, slice(0, nv, 2))]
+    return out
+
+
+def sliced_reads(proxy, full):
+    """first proxy index whose result differs from the same index applied to the whole array, or None"""
+    for sl in slicers_for(full.shape):
+        try:
+            got = np.asarray(proxy[sl])
+        except Exception as e:   # noqa
+            return f'proxy[{sl!r}] raised {type(e).__name__}: {e}'[:160]
+        want = full[sl]
+        if got.shape != want.shape or not np.array_equal(got, want):
+            return f'proxy[{sl!r}] differs from np.asarray(proxy)[{sl!r}]'
+    return None
 
 
 def strict_keys(hdr):
@@ -554,6 +618,9 @@ def predicates(case, o, info, f, ref):
     m = pred_own_factors(case, o)
     if m:
         out.append(('own_factors', m, None))
+    if o.get('sliced'):
+        # partial reads must show the same records as the whole array (which own_factors ties to the records)
+        out.append(('sliced_read', o['sliced'], None))
     claim_order = (case['strict'] and info['distinct_keys']) or (not case['strict'] and info['preserving'])
     ref = ref() if claim_order else None        # the un-permuted load is only needed where order independence is claimed
     if ref is not None and ref['status'] == 'ok':
@@ -598,7 +665,9 @@ def run(chk: Check):
                 'fixture x {identity, reversed, interleaved, volume-major, slice-major, odd/even slices, volumes reversed} x '
                 'dropped tail {0, 1, half a volume, more than a volume} x strict_sort x {dv, fp}; RS/RI/SS each constant or '
                 'varying (8 patterns) x {dv, fp}; general-information flags dyn_scan / diffusion toggled 0/1; refusals without '
-                'permit_truncated; random tail: random / order-preserving / rotated permutations with random dropped tails; '
+                'permit_truncated; file orders with the discarded records first / in the middle / last and the complete volumes '
+                'contiguous; every load also read through a handful of proxy slices (single volume, single slice, ranges, '
+                'negative steps); random tail: random / order-preserving / rotated permutations with random dropped tails; '
                 'a case is distinct by (fixture, record order, drop, strict, scaling, permit, factor scheme) and non-trivial '
                 'when the order is not the recorded one or a tail is dropped')
     chk.assumptions = ['record i of the PAR file describes REC slice i (nibabel ignores "index in REC file"); the harness '
